@@ -134,7 +134,7 @@ var redirectTable = map[string][2]string{
 	repoMod + "/jrpc2.MustURL":                            {repoMod + "/jrpc2", "zzMustURL"},
 	repoMod + "/shovel/config.Integrations":               {repoMod + "/shovel/config", "zzDBIntegrations"},
 	repoMod + "/shovel/config.Sources":                    {repoMod + "/shovel/config", "zzDBSources"},
-	"github.com/jackc/pgx/v5.CollectRows":                 {repoMod + "/shovel/config", "zzCollectColumns"},
+	"github.com/jackc/pgx/v5.CollectRows":                 {repoMod + "/wpg", "zzCollectRows"},
 	"github.com/kr/session.Get":                           {repoMod + "/shovel/web", "zzSessionGet"},
 	"github.com/kr/session.Decode":                        {repoMod + "/shovel/web", "zzSessionDecode"},
 	"(*net/http.Request).Cookie":                          {repoMod + "/shovel/web", "zzCookieOf"},
@@ -166,6 +166,12 @@ type nativeCut struct {
 }
 
 var nativeCuts = []nativeCut{
+	{
+		Pkg:  "wpg",
+		File: "wpg/pg.go",
+		Old:  "pgx.CollectRows(rows, pgx.RowToStructByName[Column])",
+		New:  "zzCollectRows(rows, nil)",
+	},
 	{
 		Pkg:  "shovel/web",
 		File: "shovel/web/web.go",
